@@ -15,7 +15,7 @@ def c07(tier):
     ]
 
     def relevant(mm, sess, runs):
-        if mm['kind'] in ('stack', 'twin', 'accumulation'):
+        if mm['kind'] in ('stack', 'twin', 'accumulation', 'abort'):
             return True
         # a wrong value/failure counts here only after an earlier failure in the same session
         if mm['kind'] == 'conformance':
